@@ -14,6 +14,8 @@ fn five_kinds() -> Vec<SubmitSpec> {
     vec![spec("pub0", publish("t/a", 0)), spec("pub1", publish("t/a", 1)), spec("pub2", publish("t/b", 2)), spec("sub", subscribe(&["f/a", "f/b"])), spec("unsub", unsubscribe(&["f/a", "f/b", "f/c"]))]
 }
 
+pub const ALL_FAMILIES: &[&str] = &["resolve", "qos-delivery", "inbound", "packet-ids", "handshake", "service-time", "flow-control", "ordering", "robustness", "keepalive", "offline", "limits", "alias", "timeouts"];
+
 pub fn family_for(property: &str) -> &'static str {
     match property {
         "C16" => "limits", "C01" => "resolve", "C04" => "qos-delivery", "C05" => "inbound", "C06" => "packet-ids", "C07" => "handshake", "C08" => "service-time",
